@@ -22,7 +22,7 @@ class C16(CheckDef):
                         ModelRun('DelayedDestructorMC.tla', 'DD_throw.cfg', workers=16, note='every callback invocation may throw'),
                         ModelRun('DelayedDestructorMC.tla', 'DD_nest.cfg', workers=16, note='destructor / callback calling destroyObjects() again (one level)')],
               'thorough': [ModelRun('DelayedDestructorMC.tla', c, workers=16, xmx='24g') for c in ('DD_quick.cfg', 'DD_quick3.cfg', 'DD_seq.cfg')] +
-                          [ModelRun('DelayedDestructorMC.tla', 'DD_thorough.cfg', workers=16, xmx='28g', timeout=300, simulate='num=500000', note='3+2+1 operations: simulation')]}
+                          [ModelRun('DelayedDestructorMC.tla', 'DD_thorough.cfg', workers=16, xmx='28g', timeout=200, simulate='num=500000', note='3+2+1 operations: simulation')]}
     confs = [conf('DD_conf.cfg'), conf('DD_confst.cfg')]
     conf_limit = {'quick': 2400, 'thorough': None}
     trace_spec = ('DelayedDestructorTrace.tla', 'DelayedDestructorTrace.cfg')
